@@ -3,6 +3,8 @@ package checks
 import (
 	"fmt"
 	"math"
+	"sort"
+	"strconv"
 	"strings"
 
 	"github.com/pip-services3-gox/pip-services3-expressions-gox/tokenizers"
@@ -59,7 +61,7 @@ func init() {
 			}
 		}
 	}
-	c17Probes = append(c17Probes, 0x1000, 0x8000, 0x10000, 0x10061, 0x10100, 0x12000, 0x1FFFE, 0x10FFFF)
+	c17Probes = append(c17Probes, 0x1000, 0x8000, 0xD7FF, 0xD800, 0xDBFF, 0xDFFF, 0xE000, 0x10000, 0x10061, 0x10100, 0x12000, 0x1FFFE, 0x10FFFF)
 }
 
 func (o c17Op) String() string {
@@ -287,6 +289,12 @@ func buildC17(cfg *mon.Config) []*mon.Sub {
 					c.Failf("disabling a word-character range does not stop words at its characters", "SetWordChars(%#x,%#x,false); %q -> %s", lo, hi, in, toksString(ts))
 					return
 				}
+				for _, x := range ts {
+					if x.Type == tokenizers.Word && strings.ContainsRune(x.Value, p) {
+						c.Failf("disabling a word-character range does not stop words at its characters", "SetWordChars(%#x,%#x,false); %q -> %s: a word contains the disabled character", lo, hi, in, toksString(ts))
+						return
+					}
+				}
 			}
 			t3 := generic.NewGenericTokenizer()
 			setOptions(t3, 0)
@@ -399,7 +407,108 @@ func buildC17(cfg *mon.Config) []*mon.Sub {
 			}
 		},
 	}
-	subs := []*mon.Sub{exh, rnd, tokz, tokHist}
+	wide := &mon.Sub{
+		Name:  "history-random-endpoints",
+		Rule:  "seeded histories of 3..40 registrations whose ends are drawn from all of U+0000..U+FFFE (half of them from 48 fixed values so that ranges nest, touch and repeat; starts also in ascending runs), references A, B, none, with an occasional Clear; after every operation the map is probed at every end used so far and its two neighbours against the newest-first list model; non-trivial = at least 8 registrations above U+00FF are alive",
+		Floor: 1000,
+		Gen: func(emit func(string)) {
+			r := cfg.Rng("c17-wide")
+			for i := 0; i < cfg.N(6000, 400000); i++ {
+				emit(strconv.FormatUint(r.Next(), 10))
+			}
+		},
+		Exec: func(c *mon.Case) {
+			seed, _ := strconv.ParseUint(c.Payload, 10, 64)
+			r := mon.NewRng(seed, "c17-wide-case")
+			fixed := make([]rune, 48)
+			for i := range fixed {
+				fixed[i] = rune(r.Intn(0xFFFF))
+			}
+			sort.Slice(fixed, func(i, j int) bool { return fixed[i] < fixed[j] })
+			pick := func() rune {
+				if r.Bool() {
+					return mon.Pick(r, fixed)
+				}
+				return rune(r.Intn(0xFFFF))
+			}
+			m := utilities.NewCharReferenceMap()
+			type reg struct {
+				lo, hi rune
+				ref    int
+			}
+			var model []reg
+			var desc []string
+			probes := map[rune]bool{}
+			n := 3 + r.Intn(38)
+			ascending := r.Chance(1, 3)
+			next := 0
+			upper := 0
+			for step := 0; step < n; step++ {
+				if r.Chance(1, 25) {
+					m.Clear()
+					model, upper = model[:0], 0
+					desc = append(desc, "Clear()")
+				} else {
+					lo, hi := pick(), pick()
+					if ascending { // strictly ascending starts, sometimes nested in an earlier wide range
+						lo = fixed[next%len(fixed)]
+						next += 1 + r.Intn(2)
+						hi = lo + rune(r.Intn(0x300))
+						if step == 0 {
+							lo, hi = 0x100, 0xFFFE
+						}
+					}
+					if lo > hi {
+						lo, hi = hi, lo
+					}
+					if hi > 0xFFFE {
+						hi = 0xFFFE
+					}
+					if lo > hi {
+						lo = hi
+					}
+					ref := r.Intn(3)
+					m.AddInterval(lo, hi, c17Ref(ref))
+					model = append(model, reg{lo, hi, ref})
+					desc = append(desc, fmt.Sprintf("AddInterval(%#x,%#x,%s)", lo, hi, []string{"none", "A", "B"}[ref]))
+					if hi >= 0x100 {
+						upper++
+					}
+					for _, e := range []rune{lo, hi} {
+						probes[e], probes[e+1] = true, true
+						if e > 0 {
+							probes[e-1] = true
+						}
+					}
+				}
+				if upper >= 8 {
+					c.NonTrivial()
+				}
+				for p := range probes {
+					if p > 0xFFFE {
+						continue
+					}
+					want := 0
+					for i := len(model) - 1; i >= 0; i-- {
+						if p >= model[i].lo && p <= model[i].hi {
+							want = model[i].ref
+							break
+						}
+					}
+					got := m.Lookup(p)
+					if (want == 0 && got != nil) || (want == 1 && got != any(c17RefA)) || (want == 2 && got != any(c17RefB)) {
+						zone := "below U+0100"
+						if p >= 0x100 {
+							zone = "at or above U+0100"
+						}
+						c.Failf("lookup "+zone+" does not return the latest covering registration", "history=[%s] probe=%#x: want reference %s, got %T %v", strings.Join(desc, "; "), p, []string{"none", "A", "B"}[want], got, got)
+						return
+					}
+				}
+			}
+		},
+	}
+	subs := []*mon.Sub{exh, rnd, tokz, tokHist, wide}
 	if !cfg.Quick() {
 		// length 4 exhaustively would be 60M histories; sampled densely above.
 	}
